@@ -67,6 +67,15 @@ def _o(v) -> str:
     return "-" if v is None else str(v)
 
 
+def built_file_name(f: Dict) -> str:
+    """File.__init__: a name without extension gets the extension of its declared type (`passwords` + TXT -> `passwords.txt`)."""
+    name = f["file_name"]
+    t = (f.get("type") or "UNKNOWN").upper()
+    if "." not in name and t != "UNKNOWN":
+        return f"{name}.{t.lower()}"
+    return name
+
+
 def _name(s: str) -> str:
     return tok(s)
 
@@ -143,10 +152,10 @@ def inventory(game, cfg: Dict) -> List[str]:
             if folder is None:
                 continue
             out.append(f"folder {h} {_name(folder.name)}")
-            declared_files = {f["file_name"] for f in fd.get("files") or []}
+            declared_files = {built_file_name(f) for f in fd.get("files") or []}
             for f in folder.files.values():
                 if f.name in declared_files:
-                    d = next(x for x in fd["files"] if x["file_name"] == f.name)
+                    d = next(x for x in fd["files"] if built_file_name(x) == f.name)
                     out.append(f"file {h} {_name(folder.name)} {_name(f.name)} {f.sim_size if d.get('size') else '-'} "
                                f"{f.file_type.name if 'type' in d else '-'}")
     for link in net.links.values():
@@ -304,14 +313,16 @@ def scenario_lines(cfg: Dict) -> List[str]:
             lines.append(f"nic {int(k)} {v['ip_address']} {v['subnet_mask']}")
         for kind, key in (("svc", "services"), ("app", "applications")):
             for e in n.get(key) or []:
-                opts = " ".join(f"{k}={tok(_opt_value(k, v))}" for k, v in sorted((e.get("options") or {}).items()) if k != "type")
+                declared = {k: v for k, v in (e.get("options") or {}).items() if k != "type"}
+                val = _validated(_software_schema(e["type"]), declared)
+                opts = " ".join(f"{k}={tok(_opt_value(k, declared[k]) if k == 'listen_on_ports' else val[k])}" for k in sorted(declared))
                 lines.append(f"{kind} {e['type']} {opts}".rstrip())
         for u in n.get("users") or []:
             lines.append(f"user {tok(u['username'])} {tok(u['password'])} {_o(None if 'is_admin' not in u else (1 if u['is_admin'] else 0))}")
         for fd in n.get("folders") or []:
             lines.append(f"folder {tok(fd['folder_name'])}")
             for f in fd.get("files") or []:
-                lines.append(f"file {tok(fd['folder_name'])} {tok(f['file_name'])} {_o(f.get('size') or None)} {_o(None if 'type' not in f else f['type'].upper())}")
+                lines.append(f"file {tok(fd['folder_name'])} {tok(built_file_name(f))} {_o(f.get('size') or None)} {_o(None if 'type' not in f else f['type'].upper())}")
     for ns in net.get("node_sets") or []:
         if ns.get("type") != "office-lan":
             raise Unmodelled(f"node set {ns.get('type')}")
@@ -326,8 +337,28 @@ def scenario_lines(cfg: Dict) -> List[str]:
             lines.append(f"action {int(i)} {e['action']} {tok(e.get('options') or {})}")
         for r in (a.get("reward_function") or {}).get("reward_components") or []:
             lines.append(f"reward {r['type']} {tok(r.get('weight', 1.0))} {tok(r.get('options') or {})}")
-        lines.append(f"settings {tok(a.get('agent_settings') or {})}")
+        lines.append(f"settings {tok(_validated(_settings_schema(a['type']), a.get('agent_settings') or {}))}")
     return lines
+
+
+def _software_schema(sw_type: str):
+    import primaite.game.game as gg
+    from primaite.simulator.system.applications.application import Application
+    from primaite.simulator.system.services.service import Service
+    cls = Service._registry.get(sw_type.lower()) or gg.SERVICE_TYPES_MAPPING.get(sw_type) or Application._registry.get(sw_type)
+    return None if cls is None else cls.ConfigSchema
+
+
+def _validated(schema, declared: Dict) -> Dict:
+    """The declared option mapping as its own pydantic schema reads it (named ports -> numbers, protocol case, IP parsing):
+    the file's meaning of a value, independent of how the loader stores it. Falls back to the raw mapping."""
+    if schema is None:
+        return dict(declared)
+    try:
+        obj = schema(**{k: v for k, v in declared.items()})
+        return {k: getattr(obj, k, declared[k]) for k in declared}
+    except Exception:
+        return dict(declared)
 
 
 def _opt_value(k: str, v: Any) -> Any:
@@ -337,11 +368,20 @@ def _opt_value(k: str, v: Any) -> Any:
     return v
 
 
+def _settings_schema(agent_type: str):
+    from primaite.game.agent.interface import AbstractAgent
+    cls = AbstractAgent._registry.get(agent_type)
+    try:
+        return cls.ConfigSchema.model_fields["agent_settings"].annotation
+    except Exception:
+        return None
+
+
 def split_inventory(line: str) -> List[str]:
     """The driver answers `build` / `declared` with one line: items separated by ' | '."""
     if line.startswith("error"):
         return [line]
-    return sorted(x.rstrip() for x in line.split(" | ") if x.strip())
+    return sorted({x.rstrip() for x in line.split(" | ") if x.strip()})  # a name installed twice is reported once per instance
 
 
 # ------------------------------------------------------------------------------------------------ behaviour digest
@@ -365,7 +405,12 @@ def trajectory_digest(cfg: Dict, seed: int, steps: int) -> Tuple[str, int]:
     na = int(env.action_space.n)
     for t in range(steps):
         act = r.randrange(na)
-        obs, reward, term, trunc, info = env.step(act)
+        try:
+            obs, reward, term, trunc, info = env.step(act)
+        except Exception as e:  # totality of step is C01's claim; here the exception is part of the observed behaviour
+            h.update(f"raises {type(e).__name__} at {t}".encode())
+            n += 1
+            break
         g = env.game
         rec = [act, round(float(reward), 9), bool(trunc)]
         for name, ag in g.agents.items():
